@@ -169,59 +169,89 @@ theorem natMin_apList (d : Nat) (n a : Nat) : natMin (apList a d (n + 1)) = a :=
 
 /-! ## T1 -/
 
-theorem isInfix_nil (s : Str) : isInfix [] s = true := by
-  cases s <;> simp [isInfix, List.isPrefixOf]
+/-! ### `list({...})`: `dedup` keeps exactly the members, once each -/
 
-/-- **T1**: at a refinement level whose keys (no chunk suffix) carry the
-iterations of an arithmetic progression with at least two terms, in any
-order, the summary line is `(min, max, stride)` of that progression. -/
-theorem scan_level_faithful_lemma0 (fkeys : List (Str × KeyInfo)) (rl a d n : Nat)
-    (hrl : ∀ k ∈ fkeys, k.2.rl = some rl) (hc : ∀ k ∈ fkeys, k.2.c = none)
-    (hperm : (fkeys.map fun k => k.2.it).Perm (apList a d (n + 2))) :
-    levelOne fkeys rl = .ok (some (.arange rl a (a + (n + 1) * d) d)) := by
-  have hfil : fkeys.filter (fun k => k.2.rl == some rl) = fkeys :=
-    List.filter_eq_self.mpr (fun k hk => by simp [hrl k hk])
-  have hsort : sortNat (fkeys.map fun k => k.2.it) = apList a d (n + 2) :=
-    sortNat_eq_of_perm _ _ hperm (apList_sorted d (n + 2) a)
-  cases hf : fkeys with
-  | nil => rw [hf] at hperm; simp [apList] at hperm
-  | cons k0 ks =>
-    have hc0 : k0.2.c = none := hc k0 (by simp [hf])
-    have hfil2 : (k0 :: ks).filter (fun k => isInfix [] k.1) = k0 :: ks :=
-      List.filter_eq_self.mpr (fun k _ => isInfix_nil _)
-    rw [hf] at hfil hsort
-    unfold levelOne
-    simp only [hfil, hc0, hfil2, hsort]
-    have hmin := natMin_apList d (n + 1) a
-    have hmax := natMax_apList d (n + 1) a
-    simp only [apList] at hmin hmax ⊢
-    simp only [hmin, hmax]
-    congr 4
-    omega
+def dedupStep (acc : List Nat) (x : Nat) : List Nat := if acc.contains x then acc else acc ++ [x]
 
-/-- a level with a single iteration is reported as that iteration -/
-theorem scan_level_single_lemma0 (fkeys : List (Str × KeyInfo)) (rl x : Nat)
-    (hrl : ∀ k ∈ fkeys, k.2.rl = some rl) (hc : ∀ k ∈ fkeys, k.2.c = none)
-    (hits : (fkeys.map fun k => k.2.it) = [x]) :
-    levelOne fkeys rl = .ok (some (.single rl x)) := by
-  have hfil : fkeys.filter (fun k => k.2.rl == some rl) = fkeys :=
-    List.filter_eq_self.mpr (fun k hk => by simp [hrl k hk])
-  cases hf : fkeys with
-  | nil => rw [hf] at hits; simp at hits
-  | cons k0 ks =>
-    have hc0 : k0.2.c = none := hc k0 (by simp [hf])
-    have hfil2 : (k0 :: ks).filter (fun k => isInfix [] k.1) = k0 :: ks :=
-      List.filter_eq_self.mpr (fun k _ => isInfix_nil _)
-    rw [hf] at hfil hits
-    unfold levelOne
-    simp only [hfil, hc0, hfil2, hits]
-    rfl
+theorem dedup_eq_foldl (l : List Nat) : dedup l = l.foldl dedupStep [] := rfl
 
-/-- only the keys whose PARSED refinement level equals `rl` matter -/
-theorem levelOne_filter (fkeys : List (Str × KeyInfo)) (rl : Nat) :
-    levelOne fkeys rl = levelOne (fkeys.filter fun k => k.2.rl == some rl) rl := by
-  unfold levelOne
-  simp only [List.filter_filter, Bool.and_self]
+theorem mem_foldl_dedupStep (y : Nat) : ∀ (l acc : List Nat), y ∈ l.foldl dedupStep acc ↔ y ∈ acc ∨ y ∈ l := by
+  intro l
+  induction l with
+  | nil => intro acc; simp
+  | cons a l ih =>
+    intro acc
+    simp only [List.foldl_cons, ih, dedupStep]
+    by_cases hc : acc.contains a = true
+    · have ha : a ∈ acc := by simpa using hc
+      rw [if_pos hc]
+      simp only [List.mem_cons]
+      constructor
+      · rintro (h | h)
+        · exact Or.inl h
+        · exact Or.inr (Or.inr h)
+      · rintro (h | h | h)
+        · exact Or.inl h
+        · exact Or.inl (h ▸ ha)
+        · exact Or.inr h
+    · rw [if_neg hc]
+      simp only [List.mem_append, List.mem_singleton, List.mem_cons, List.not_mem_nil, or_false]
+      constructor
+      · rintro ((h | h) | h)
+        · exact Or.inl h
+        · exact Or.inr (Or.inl h)
+        · exact Or.inr (Or.inr h)
+      · rintro (h | h | h)
+        · exact Or.inl (Or.inl h)
+        · exact Or.inl (Or.inr h)
+        · exact Or.inr h
+
+theorem nodup_foldl_dedupStep : ∀ (l acc : List Nat), acc.Nodup → (l.foldl dedupStep acc).Nodup := by
+  intro l
+  induction l with
+  | nil => intro acc h; exact h
+  | cons a l ih =>
+    intro acc h
+    simp only [List.foldl_cons]
+    apply ih
+    unfold dedupStep
+    by_cases hc : acc.contains a = true
+    · rw [if_pos hc]; exact h
+    · have ha : a ∉ acc := by simpa using hc
+      rw [if_neg hc]
+      rw [List.nodup_append]
+      refine ⟨h, by simp, ?_⟩
+      intro x hx y hy
+      simp only [List.mem_singleton] at hy
+      subst hy
+      intro hxy
+      exact ha (hxy ▸ hx)
+
+theorem mem_dedup (l : List Nat) (y : Nat) : y ∈ dedup l ↔ y ∈ l := by
+  rw [dedup_eq_foldl, mem_foldl_dedupStep]; simp
+
+theorem nodup_dedup (l : List Nat) : (dedup l).Nodup := by
+  rw [dedup_eq_foldl]; exact nodup_foldl_dedupStep l [] List.nodup_nil
+
+/-- the sorted set of a list is determined by its members -/
+theorem sort_dedup_eq (l s : List Nat) (hmem : ∀ x, x ∈ l ↔ x ∈ s) (hnd : s.Nodup) (hs : s.Pairwise (· ≤ ·)) :
+    sortNat (dedup l) = s :=
+  sortNat_eq_of_perm _ _
+    ((List.perm_ext_iff_of_nodup (nodup_dedup l) hnd).mpr (fun x => by rw [mem_dedup, hmem])) hs
+
+theorem sort_dedup_congr (l₁ l₂ : List Nat) (hmem : ∀ x, x ∈ l₁ ↔ x ∈ l₂) :
+    sortNat (dedup l₁) = sortNat (dedup l₂) :=
+  sort_dedup_eq l₁ _ (fun x => by rw [hmem, ← mem_dedup l₂]; exact ((isort_perm _ _).mem_iff).symm)
+    (((isort_perm _ _).nodup_iff).mpr (nodup_dedup l₂)) (sortNat_sorted _)
+
+theorem apList_nodup (d : Nat) (hd : 0 < d) : ∀ (n a : Nat), (apList a d n).Nodup := by
+  intro n
+  induction n with
+  | zero => intro a; simp [apList]
+  | succ n ih =>
+    intro a
+    simp only [apList, List.nodup_cons]
+    exact ⟨fun h => by have := apList_ge d n (a + d) a h; omega, ih (a + d)⟩
 
 /-- the keys of a file (all levels mixed) whose parsed `rl` field equals `rl` -/
 def keysAt (fkeys : List (Str × KeyInfo)) (rl : Nat) : List (Str × KeyInfo) :=
@@ -232,19 +262,102 @@ theorem keysAt_rl (fkeys : List (Str × KeyInfo)) (rl : Nat) : ∀ k ∈ keysAt 
   have := (List.mem_filter.mp hk).2
   simpa using this
 
-theorem scan_level_faithful_lemma (fkeys : List (Str × KeyInfo)) (rl a d n : Nat)
-    (hc : ∀ k ∈ keysAt fkeys rl, k.2.c = none)
-    (hperm : ((keysAt fkeys rl).map fun k => k.2.it).Perm (apList a d (n + 2))) :
-    levelOne fkeys rl = .ok (some (.arange rl a (a + (n + 1) * d) d)) := by
-  rw [levelOne_filter]
-  exact scan_level_faithful_lemma0 _ rl a d n (keysAt_rl fkeys rl) hc hperm
+/-- the iterations carried by the keys of level `rl` (with repetitions: one
+per chunk and per variable) -/
+def itsAt (fkeys : List (Str × KeyInfo)) (rl : Nat) : List Nat := (keysAt fkeys rl).map fun k => k.2.it
 
+/-- `levelOne` in closed form: a function of the sorted SET of iterations of
+the keys whose parsed `rl` is `rl`. -/
+theorem levelOne_eq (fkeys : List (Str × KeyInfo)) (rl : Nat) :
+    levelOne fkeys rl =
+      match sortNat (dedup (itsAt fkeys rl)) with
+      | a :: b :: r => .ok (some (Line.arange rl (natMin (a :: b :: r)) (natMax (a :: b :: r)) (b - a)))
+      | [x] => .ok (some (Line.single rl x))
+      | [] => .ok none := by
+  unfold levelOne itsAt keysAt
+  cases h : fkeys.filter (fun k => k.2.rl == some rl) with
+  | nil => simp [dedup, sortNat, isort]
+  | cons k ks =>
+    simp only []
+    generalize sortNat (dedup (List.map (fun k => k.snd.it) (k :: ks))) = S
+    rcases S with _ | ⟨a, _ | ⟨b, r⟩⟩ <;> rfl
+
+/-- **T1**: at a refinement level whose keys — any number of chunks, of
+variables, repeated or not, in any order — carry as a SET the iterations of an
+arithmetic progression with at least two terms and stride `d > 0`, the summary
+line is `(min, max, stride)` of that progression. -/
+theorem scan_level_faithful_lemma (fkeys : List (Str × KeyInfo)) (rl a d n : Nat) (hd : 0 < d)
+    (hset : ∀ x, x ∈ itsAt fkeys rl ↔ x ∈ apList a d (n + 2)) :
+    levelOne fkeys rl = .ok (some (.arange rl a (a + (n + 1) * d) d)) := by
+  have hsort : sortNat (dedup (itsAt fkeys rl)) = apList a d (n + 2) :=
+    sort_dedup_eq _ _ hset (apList_nodup d hd _ _) (apList_sorted d (n + 2) a)
+  rw [levelOne_eq, hsort]
+  have hmin := natMin_apList d (n + 1) a
+  have hmax := natMax_apList d (n + 1) a
+  simp only [apList] at hmin hmax ⊢
+  simp only [hmin, hmax]
+  congr 4
+  omega
+
+/-- a level all of whose keys carry one and the same iteration is reported as
+that iteration -/
 theorem scan_level_single_lemma (fkeys : List (Str × KeyInfo)) (rl x : Nat)
-    (hc : ∀ k ∈ keysAt fkeys rl, k.2.c = none)
-    (hits : ((keysAt fkeys rl).map fun k => k.2.it) = [x]) :
+    (hne : keysAt fkeys rl ≠ []) (hits : ∀ k ∈ keysAt fkeys rl, k.2.it = x) :
     levelOne fkeys rl = .ok (some (.single rl x)) := by
-  rw [levelOne_filter]
-  exact scan_level_single_lemma0 _ rl x (keysAt_rl fkeys rl) hc hits
+  have hsort : sortNat (dedup (itsAt fkeys rl)) = [x] := by
+    apply sort_dedup_eq _ _ _ (by simp) (by simp)
+    intro y
+    simp only [itsAt, List.mem_map, List.mem_singleton]
+    constructor
+    · rintro ⟨k, hk, rfl⟩; exact hits k hk
+    · intro hy
+      cases hk : keysAt fkeys rl with
+      | nil => exact absurd hk hne
+      | cons k ks => exact ⟨k, by simp, by rw [hy]; exact hits k (by rw [hk]; simp)⟩
+  rw [levelOne_eq, hsort]
+
+theorem scan_level_none_lemma (fkeys : List (Str × KeyInfo)) (rl : Nat) (h : keysAt fkeys rl = []) :
+    levelOne fkeys rl = .ok none := by
+  rw [levelOne_eq, itsAt, h]; rfl
+
+/-- the line of a level depends on the SET of iterations of its keys only -/
+theorem levelOne_congr (f₁ f₂ : List (Str × KeyInfo)) (rl : Nat)
+    (h : ∀ x, x ∈ itsAt f₁ rl ↔ x ∈ itsAt f₂ rl) : levelOne f₁ rl = levelOne f₂ rl := by
+  rw [levelOne_eq, levelOne_eq, sort_dedup_congr _ _ h]
+
+/-- the per-level block raises nothing (the former TypeError of a level going
+from one unnumbered chunk to several is gone) -/
+theorem levelOne_never_raises (fkeys : List (Str × KeyInfo)) (rl : Nat) : ∃ o, levelOne fkeys rl = .ok o := by
+  rw [levelOne_eq]
+  split <;> exact ⟨_, rfl⟩
+
+theorem levelLines_never_raises (fkeys : List (Str × KeyInfo)) (rlmax : Nat) : (levelLines fkeys rlmax).2 = none := by
+  unfold levelLines
+  suffices h : ∀ (l : List Nat) (acc : List Line × Option Err), acc.2 = none →
+      (l.foldl (fun (acc : List Line × Option Err) rl =>
+        match acc.2 with
+        | some _ => acc
+        | none =>
+          match levelOne fkeys rl with
+          | .error e => (acc.1, some e)
+          | .ok none => acc
+          | .ok (some l) => (acc.1 ++ [l], none)) acc).2 = none from h _ _ rfl
+  intro l
+  induction l with
+  | nil => intro acc h; exact h
+  | cons r l ih =>
+    intro acc h
+    simp only [List.foldl_cons]
+    apply ih
+    obtain ⟨o, ho⟩ := levelOne_never_raises fkeys r
+    rw [h, ho]
+    cases o <;> simp [h]
+
+/-- only the keys whose PARSED refinement level equals `rl` matter -/
+theorem levelOne_filter (fkeys : List (Str × KeyInfo)) (rl : Nat) :
+    levelOne fkeys rl = levelOne (fkeys.filter fun k => k.2.rl == some rl) rl := by
+  unfold levelOne
+  simp only [List.filter_filter, Bool.and_self]
 
 /-! ## restart discovery: exactly the entries matching `^output-(\d+)$` -/
 
